@@ -39,7 +39,9 @@ def run(ctx):
             entries.add(d.id)
     cb = [f.id for f in F.fns.values() if (f.j.get("trait") or "") in ("revm::Database", "revm::DatabaseCommit") or (f.j.get("trait") or "").endswith("PrecompileProvider")]
     ret, out = U.run(sorted(entries))
-    R.floor("hash_iteration_sources", len(U.sources), 10)
+    # 12 on the pinned tree; several are copies of one overlay loop (get_range / all / commit / clear ...) that a de-duplicating
+    # refactoring merges, so the floor only guards against losing the type-resolved HashMap iteration facts wholesale
+    R.floor("hash_iteration_sources", len(U.sources), 6)
     R.say("C02: %d hash-iteration sources, %d bodies return an order-tainted sequence" % (len(U.sources), sum(1 for v in ret.values() if v)))
     seen_ent = set()
     for e in out:
